@@ -11,7 +11,7 @@ LEVEL = "proof"
 COQ_TARGETS = ["theories/Properties/C15.vo"]
 PROPERTY_FILES = ["theories/Properties/C15.v"]
 RULE = ("correspondence: the six transforms of CP01._handle_segment on ALL strings over {a,B,1,_,space} up to length 5 (quick) / {a,B,z,1,_,space} "
-        "up to 6 (thorough), pascal/camel also over {a,B,1,_,e-acute,sharp-s}; the whole _handle_segment (refuted-cases inference, "
+        "up to 5 (thorough), pascal/camel also over {a,B,1,_,e-acute,sharp-s}; the whole _handle_segment (refuted-cases inference, "
         "latest_possible_case, skip, fix) on ALL token sequences up to length 3 over a 7-word (quick) / 8-word (thorough) pool x every policy of CP01 and CP02, plus seeded "
         "random sequences with ignore_words / ignore_words_regex and a malformed stream (control characters, full ASCII). monitor: real Linter fix "
         "runs, each CP rule x each valid policy (+ all five rules together) on dialect fixtures of every dialect and case/comment/non-ASCII/"
@@ -235,7 +235,7 @@ def correspondence(ctx, coq_ok):
 
     # (1) transforms, exhaustive
     alpha = "aBz1_ " if thorough else "aB1_ "
-    maxlen = 6 if thorough else 5
+    maxlen = 5
     strings = ["".join(t) for n in range(maxlen + 1) for t in itertools.product(alpha, repeat=n)]
     for p in SIX:
         outs = [real.transform(p, s) for s in strings]
@@ -501,6 +501,8 @@ def monitor_task(task):
             kind = "changed" if out != sql else ("unparsable-unchanged" if unparsable else "unchanged")
             res["cases"].append((task["label"], tag, kind, unparsable))
             for key, attrs, detail in problems:
+                if key in ("frozen-token-changed", "other-kind-changed"):
+                    attrs = dict(attrs, rule=sorted(rules_pol)[0] if len(rules_pol) == 1 else "multi")
                 res["problems"].append((key, attrs, {"input": {"dialect": dialect, "file": task["label"], "rules": rules_pol,
                                                                "fix_even_unparsable": feu, "sql": sql},
                                                      "token": detail, "output_excerpt": out[:400]}))
@@ -580,6 +582,7 @@ EXTRA_SQL = [
     ("postgres", "SELECT fooBar1::Int4, E'esc1', $$body1 fooBar$$, \"Qu1\" FROM myTable1 WHERE a1 IS nUll\n"),
     ("snowflake", "select $1, fooBar1:fieldName1::varChar, 'x1' from @myStage1 (file_format => myFmt1)\n"),
     ("mysql", "SELECT `fooBar1`, fooBar1, @userVar1, 'aB1' FROM myTable1 WHERE col1 <=> NULL\n"),
+    ("ansi", "CREATE TABLE tblA1 (a INT, b DECIMAL /* Money: see Docs */ (10, 2), c DOUBLE -- Legacy Col\n PRECISION)\n"),
     ("snowflake", "create file format ff1 type = 'csv' compression = 'gzip';\ncreate warehouse wh1 with warehouse_size = 'xsmall' scaling_policy = 'economy';\n"),
     ("materialize", "ALTER SINK IF EXISTS sinkName1 SET ( SIZE 'xsmall' );\nselect colA1 from tblB2;\n"),
     ("sparksql", "SELECT fooBar1, `quoted1Col`, named_struct('a1', colB2) FROM myTable1 TBLPROPERTIES\n"),
@@ -590,9 +593,9 @@ def build_tasks(ctx):
     rng = ctx.rng
     thorough = ctx.tier == "thorough"
     per_dialect = 5 if thorough else 1
-    max_size = 5000 if thorough else 1200
+    max_size = 5000 if thorough else 1000
     n_mut = 2 if thorough else 1
-    mut_combos = 10 if thorough else 6
+    mut_combos = 10 if thorough else 4
     single = [({r: p}, False) for r in sorted(NAMES) for p in policies_of(r)]
 
     def all_mix(with_snake):
